@@ -12,7 +12,9 @@ ZDEC_FUNCS = [r'^Scanner::', r'^parse_', r'^is_unit_char$', r'^is_partial_date$'
 PROPS = {
     'C03': dict(
         title='Decoders are total',
-        verus=[('u_zparse', ZDEC_FUNCS)],
+        verus=[('u_zparse', ZDEC_FUNCS),
+               ('u_jdec', [r'^JsonValueDecoderVisitor::visit_map$', r'^JsonValueDecoderVisitor::visit_seq$']),
+               ('u_getters', [r'^parse_ref$', r'^parse_symbol$', r'^parse_uri$', r'^parse_coord$', r'^parse_xstr$', r'^parse_date$', r'^parse_time$', r'^parse_datetime$', r'^parse_number$'])],
         kani=[dict(harness='k_scanner_classes', klass='complete', schema=['u8'], family=None, target='Scanner::is_* byte classes assumed by the units'),
               dict(harness='k_u8_classes', klass='complete', schema=['u8'], family=None, target='u8::is_ascii_* assumed by the prelude'),
               dict(harness='k_reader_chunks_small', klass='bounded', bound='2-byte stream, <= 1 Interrupted result, symbolic chunk lengths',
@@ -24,8 +26,9 @@ PROPS = {
         level_text=('Proof (Verus, unbounded): panic-freedom and termination of the Zinc scanner, scalar parsers, lexer and '
                     'value/list/dict/grid parsers including the lazy row iterator, for all byte strings and every reader '
                     'behaviour allowed by the reader contract; recursion depth bounded by the nesting budget '
-                    '(decreases MAX_NESTING_DEPTH - depth).'),
-        not_decided=('serde_json (Hayson driver) and the visit_map/visit_seq impls; panics inside chrono, f64::from_str, '
+                    '(decreases MAX_NESTING_DEPTH - depth).'
+                    ' Hayson side: the object and array visitors of the decoder (visit_map, visit_seq) and the per-kind decoders parse_ref / symbol / uri / coord / xstr / date / time / datetime / number are verified on their real bodies, hence panic-free and terminating for every member list serde hands over.'),
+        not_decided=('serde_json itself (the Hayson driver: its text scanner and 128-level recursion limit) and the Hayson parse_grid; panics inside chrono, f64::from_str, '
                      'get_unit (assumed none); the chrono tail of parse_datetime (trusted contract; parse_time_zone is verified, with Duration/FixedOffset of chrono seen through their seconds); '
                      'allocation failure; that '
                      'MAX_NESTING_DEPTH frames fit the native stack.'),
@@ -37,7 +40,7 @@ PROPS = {
                ('u_weval', [r'^WildcardEq::eval$', r'^Ref::<PartialEq>::eq$']),
                ('u_feval', [r'^(Filter|Or|And|Term|Parens|Has|Missing|Cmp)::eval$'])],
         kani=[],
-        witness='filter',
+        witness='filter', enums=['enum:wildcard-cycles'],
         design_ref='DESIGN.md section 4, C09',
         level_text=('Proof (Verus, unbounded): panic-freedom and termination of the filter lexer and parser (and the Zinc '
                     'scanner/scalar parsers they reuse) for all byte strings; recursion through parentheses bounded by the '
@@ -244,7 +247,7 @@ PROPS = {
               dict(harness='k_number_add_sub', klass='complete', schema=['u8', 'u8', 'f64', 'f64'], family='number-units', target='Number +/-', timeout=600),
               dict(harness='k_convert_offsets', klass='bounded', bound='both scales fixed to 1.0 (the full formula with symbolic scales does not finish: float division)',
                    schema=None, family=None, target='Unit::convert_to formula, offset part', timeout=900)],
-        witness=None,
+        witness='enum:unit-convert',
         design_ref='DESIGN.md section 4, C16',
         level_text=('Proof of the guards and the dimension bookkeeping: Unit::convert_to succeeds exactly when both units have the same '
                     'dimensions or both are byte units (Kani, complete over all dimension vectors); UnitDimensions + and - are the '
@@ -304,27 +307,23 @@ PROPS = {
     ),
     'C17': dict(
         title='The C API behaves exactly like the Rust API on the same values',
-        verus=[('u_capi', [r'^haystack_value_'])],
+        verus=[('u_capi', [r'^haystack_value_', r'^haystack_filter_'])],
         kani=[],
         witness='enum:capi-list',
         design_ref='DESIGN.md section 4, C17',
-        level_text=('Proof (Verus, under extraction rule R10 which turns the pointer protocol into types) for 53 of the extern "C" functions. '
+        level_text=('Proof (Verus, under extraction rule R10 which turns the pointer protocol into types) for 80 of the extern "C" functions. '
                     'Constructors (marker, na, remove, bool, number, coord, list): the handle holds exactly the value the Rust constructor makes; the string constructors (str, ref, ref with dis, uri, symbol) hold the value built from the text of the C string and return no handle for null or invalid UTF-8 (CStr::from_ptr is proved never to be applied to null). '
                     'Kind tests (all 18 haystack_value_is_*): the Rust predicate on a live handle, false on a null one. Scalar getters (coord lat/long, '
                     'number value / has_unit, dict / grid / str length, date year/month/day, time hour/minutes/seconds/millis): the component of the '
                     'wrapped value, and the documented sentinel (NaN, usize::MAX, u32::MAX, ERR) for a null handle or a handle of another kind. '
                     'get_datetime_date / get_datetime_time: the UTC or the local date / time as the flag asks, written into the result handle, which is '
-                    'left unchanged on failure. get_grid_row_at: the index-th row as a Dict value, ERR and an unchanged result out of range. insert_dict_entry / remove_dict_entry behave as insert / remove on the map the handle wraps and leave it unchanged on failure. '
+                    'left unchanged on failure. get_grid_row_at: the index-th row as a Dict value, ERR and an unchanged result out of range. insert_dict_entry / remove_dict_entry behave as insert / remove on the map the handle wraps and leave it unchanged on failure; get_list_entry_at / get_dict_entry hand out a pointer to the stored entry (a missing key is FALSE, not an error), the out-parameter being modelled as a slot for a borrowed reference. The string getters (str, uri, symbol, ref value / dis, xstr type / value, number unit, timestamp zone) return a fresh C string holding exactly the bytes of the field, and null for another kind, a null handle or text with an interior NUL; the length getters return the byte length. The codec entry points (to / from Zinc and JSON text, filter parse, filter match on a dict, first match in a grid) return what the Rust codec, parser or evaluator returns on the same value or text. '
                     'The list part: '
                     'haystack_value_get_list_len / push_list_entry / set_list_entry_at / remove_list_entry_at behave as len / push / update / '
                     'remove on the sequence the handle wraps, return TRUE exactly in those cases, and on every failure (wrong kind, null entry, '
                     'index out of range) return the sentinel and leave the handle unchanged. Each call is verified for every handle state, so '
                     'any finite sequence of these calls is covered by induction.'),
-        not_decided=('R10 assumes handles are live and unaliased (the ownership protocol of C18) and that a mutated handle is non-null; '
-                     'that the error message is retrievable through last_error_message (thread-local); every constructor/getter that '
-                     'returns a CString (string getters, dict keys, zinc/json/filter entry points), borrowed entry pointers '
-                     '(*mut *const Value: get_list_entry_at, get_dict_entry), make_xstr and the grid constructors (iterator adapters), timestamp constructors -- 38 of the 91 extern "C" functions. '
-                     'chrono accessors are uninterpreted (distinct names for distinct accessors).'),
+        not_decided=('R10 assumes handles are live and unaliased (the ownership protocol of C18) and that a mutated handle is non-null; that the error message is retrievable through last_error_message (thread-local); make_xstr, the grid constructors, get_dict_keys and filter_match_all_grid (iterator adapters), the two timestamp constructors (iterator adapters over chrono values), the two destroy functions and last_error_message -- 11 of the 91 extern "C" functions. chrono accessors, the Rust codecs and the filter evaluator appear as uninterpreted functions (distinct names for distinct functions): the contracts decide that the C function calls the right Rust operation on the right arguments and reports its outcome by the documented sentinel.'),
     ),
     'C11': dict(
         title='Re-encoding is stable; stream decoding equals buffer decoding',
